@@ -155,6 +155,11 @@ class Interp:
         caps = self.env.get('call_caps')
         if caps and name in caps and n > caps[name]:
             raise CostCap(f'{name} entered more than {caps[name]} times on one path')
+        if caps and '*' in caps:
+            # total number of interpreted calls of crate functions on this path (whatever helper does the work)
+            t = self.path_calls['*total'] = self.path_calls.get('*total', 0) + 1
+            if t > caps['*']:
+                raise CostCap(f'more than {caps["*"]} calls of crate functions on one path')
 
     def call(self, name, args):
         body = self.bodies.get(name)
